@@ -48,7 +48,10 @@ func (X *Exec) execBuiltin(fr *Frame, ins ssa.Instruction, b *ssa.Builtin, cc *s
 	case "print", "println":
 		return nil
 	case "recover":
-		return &Val{T: X.E.IfaceNil(), GT: cc.Signature().Results().At(0).Type()}
+		// the pending panic value (nil outside a panic path); recovering clears it
+		pv := X.heap(st, "GH|~panicval", SIface)
+		X.setHeap(st, "GH|~panicval", SIface, X.E.IfaceNil())
+		return &Val{T: pv, GT: cc.Signature().Results().At(0).Type()}
 	case "ssa:wrapnilchk":
 		return args[0]
 	case "ssa:deferstack":
